@@ -282,8 +282,24 @@ func runC14(c *Ctx, r *Rec) {
 			return returnsReadOf(info, fd, pname(fd, 0))
 		},
 		"RemoveValues": func(fd *ast.FuncDecl, e mapEffects) string {
-			if len(e.writes)+len(e.deletes)+e.clears > 0 {
-				return "RemoveValues changes the map directly instead of through RemoveValue"
+			if len(e.writes)+e.clears > 0 {
+				return "RemoveValues writes or clears the map: it is to remove the listed keys, nothing else"
+			}
+			if len(e.deletes) > 0 {
+				// the single removal written out in the key loop (a lookup and a delete of the same
+				// key, one after the other, per key) is the same effect; values that are read by a
+				// different operation of the map (before any key is deleted) are not what
+				// RemoveValue returns when a key is listed twice
+				written := len(e.deletes) == 1 && len(e.reads) == 1 && e.reads[0] == e.deletes[0]
+				for _, cl := range e.calls {
+					if cl != "GetClass" {
+						written = false
+					}
+				}
+				if !written {
+					return "RemoveValues deletes from the map directly, and the values it returns are not read by a lookup of the same key next to the delete: for a key that is listed twice the second value must be the zero value, as with RemoveValue"
+				}
+				return "skip: RemoveValues deletes from the map itself (the body of RemoveValue written out): the delegation rule is not bound to it"
 			}
 			n := 0
 			for _, cl := range e.calls {
